@@ -18,7 +18,7 @@ func init() {
 	Register("C12", &Info{
 		Run:   runC12,
 		Quick: 10000, Thor: 300000,
-		Rule: "a world = one fingerprint (every predefined parrot by stratum, randomized, generated specs, fingerprinted copies) against the reference server applying exactly one deviation drawn from the complement of what the ON-WIRE hello offers, with a transcript that stays coherent: TLS 1.3 suite not offered, TLS 1.2 suite announced under TLS 1.3, GREASE suite (the wire value and another one), TLS 1.2 suite not offered, suite that is in Config.CipherSuites but not on the wire, key_share group not offered, group listed without a share answered without HelloRetryRequest, HelloRetryRequest for an unoffered group or for a group already shared, ALPN protocol not offered (or ALPN without an offer), compression method 1, a PSK selection without/with a bad index, a certificate compressed with an unadvertised algorithm, legacy session id not echoed, TLS 1.2 ECDHE curve not offered; modifiers: the deviating ServerHello follows an honest HelloRetryRequest; the caller's Config value is shared with a second connection of another fingerprint that is built at a drawn scheduler step while the handshake runs; 1 world in 16 is a real resumption in which the server announces a selected_identity beyond the identities on the wire (1 = exactly one past the end, 2, 7, 65535); 1 world in 8 applies no deviation and must complete (reference-server sanity); oracle: with a deviation the client's Handshake returns an error, no application data is exchanged, and no ConnectionState with HandshakeComplete exposes the unoffered value; non-trivial = a deviation from the complement of the offer was applied; distinct = (fingerprint, deviation, value)",
+		Rule: "a world = one fingerprint (every predefined parrot by stratum, randomized, generated specs, fingerprinted copies) against the reference server applying exactly one deviation drawn from the complement of what the ON-WIRE hello offers, with a transcript that stays coherent: TLS 1.3 suite not offered, TLS 1.2 suite announced under TLS 1.3, GREASE suite (the wire value and another one), TLS 1.2 suite not offered, suite that is in Config.CipherSuites but not on the wire, key_share group not offered, group listed without a share answered without HelloRetryRequest, HelloRetryRequest for an unoffered group or for a group already shared, ALPN protocol not offered (or ALPN without an offer), compression method 1, a PSK selection without/with a bad index, a certificate compressed with an unadvertised algorithm, legacy session id not echoed, TLS 1.2 ECDHE curve not offered; modifiers: the deviating ServerHello follows an honest HelloRetryRequest; the caller's Config value is shared with a second connection of another fingerprint that is built at a drawn scheduler step while the handshake runs; 1 world in 16 is a real resumption in which the server announces a selected_identity beyond the identities on the wire (1 = exactly one past the end, 2, 7, 65535); 1 world in 16 is a TLS 1.2 ticket resumption history: the first connection negotiates a protocol, the second (same cache and name, possibly another fingerprint) offers an ALPN list without it and the resuming server answers with the previous connection's protocol or a never-offered one; 1 world in 8 applies no deviation and must complete (reference-server sanity); oracle: with a deviation the client's Handshake returns an error, no application data is exchanged, and no ConnectionState with HandshakeComplete exposes the unoffered value; non-trivial = a deviation from the complement of the offer was applied; distinct = (fingerprint, deviation, value)",
 		Assumptions: []string{"the reference server is a frozen fork of the repository's TLS stack with deviation hooks (sim/refsrv); it is validated in every batch by the no-deviation stratum and, in the self-test, against the standard-library client"},
 		Real:        []string{"utls client from /repo"},
 		Stub:        []string{"reference/byzantine server (sim/refsrv)", "transport, clock, crypto/rand"},
@@ -318,9 +318,95 @@ func runC12PSK(c *Ctx) {
 	}
 }
 
+// runC12Resumed12: deviations on a *resumed* TLS 1.2 handshake. The first connection negotiates
+// protocol X and caches a ticket; the second connection (same cache and name, possibly another
+// fingerprint or another NextProtos list) offers an ALPN list without X, or its hello no longer
+// lists the session's suite; the reference server resumes and answers with X / with another suite.
+func runC12Resumed12(c *Ctx) {
+	ch := c.Ch
+	ids := []IDInfo{{"Golang", tls.HelloGolang}, {"Firefox_65", tls.HelloFirefox_65}, {"Chrome_83", tls.HelloChrome_83}, {"Firefox_120", tls.HelloFirefox_120}, {"Chrome_100", tls.HelloChrome_100}, {"IOS_14", tls.HelloIOS_14}}
+	first := ids[ch.Pick(len(ids), "first-id")]
+	second := first
+	if ch.Bool(50, "other-second") {
+		second = ids[ch.Pick(len(ids), "second-id")]
+	}
+	dev := []string{"alpn-of-previous-connection", "alpn-of-previous-connection", "alpn-unoffered", "honest"}[ch.Pick(4, "resumed-dev")]
+	w := c.NewWorld(simrt.Config{})
+	cfg := refCfg()
+	cfg.MaxVersion = refsrv.VersionTLS12
+	cfg.NextProtos = []string{"proto-a", "h2", "http/1.1", "proto-b"}
+	cache := tls.NewLRUClientSessionCache(4)
+	mk := func(protos []string) *tls.Config {
+		cc := negCfg()
+		cc.ClientSessionCache = cache
+		cc.NextProtos = protos
+		return cc
+	}
+	// first connection: HelloGolang offers proto-a first; parrots offer their fixed list (h2 first)
+	o1 := RunConn(c, w, &ConnSpec{Name: "first", ID: first.ID, CCfg: mk([]string{"proto-a", "proto-b"}), Peer: PeerRef, RefCfg: cfg, Payload: [][]byte{[]byte("first")}})
+	if !o1.CDone || string(o1.CRead) != "first" {
+		c.Finish(w, true)
+		c.R.Harness = "resumed-1.2 stratum: first connection failed: " + o1.Describe()
+		return
+	}
+	prevProto := o1.CState.NegotiatedProtocol
+	forced := ""
+	switch dev {
+	case "alpn-of-previous-connection":
+		forced = prevProto
+	case "alpn-unoffered":
+		forced = "never-offered"
+	}
+	cfg.Byz.ForceALPN = forced
+	// the second hello offers a list without the protocol of the first connection
+	protos2 := [][]string{{"proto-b"}, nil, {"proto-b", "zz"}}[ch.Pick(3, "second-protos")]
+	o := RunConn(c, w, &ConnSpec{Name: "second", ID: second.ID, CCfg: mk(protos2), Peer: PeerRef, RefCfg: cfg, Payload: [][]byte{[]byte("must-not-be-sent")},
+		Setup: func(l *simnet.Link) { l.Frag = ch.Bool(30, "frag") }})
+	c.Finish(w, true)
+	c.R.Class = fmt.Sprintf("resumed12-history/%s->%s dev=%s prev-proto=%q", first.Name, second.Name, dev, prevProto)
+	if c.R.Violation != nil {
+		return
+	}
+	obs := ObserveHellos(o.Link)
+	if len(obs.CH) == 0 {
+		c.R.Harness = "resumed-1.2 stratum: no hello: " + o.Describe()
+		return
+	}
+	offered := obs.CH[0].ALPN
+	ticket := obs.CH[0].HasSessionTicket && len(obs.CH[0].SessionTicket) > 0
+	if dev == "honest" {
+		c.Probe("resumed12-honest")
+		if !o.CDone {
+			c.R.Harness = "resumed-1.2 stratum: honest second connection failed: " + o.Describe()
+		} else if o.CState.DidResume {
+			c.Probe("resumed12-honest-resumed")
+		}
+		return
+	}
+	if forced == "" || hasStr(offered, forced) {
+		return // nothing forced (no protocol on the first connection) or it happens to be offered: not a deviation
+	}
+	c.R.NonTrivial = true
+	c.Probe("dev-resumed12-" + dev)
+	if ticket {
+		c.Probe("dev-resumed12-ticket-offered")
+	}
+	if o.CDone {
+		c.Violate("unoffered-choice-accepted dev="+dev+" resumed12", "%s: the hello offered ALPN %v (ticket offered=%v), the server answered %q, handshake completed (DidResume=%v, NegotiatedProtocol=%q), server read %d bytes", c.R.Class, offered, ticket, forced, o.CState.DidResume, o.CState.NegotiatedProtocol, len(o.SRead))
+		return
+	}
+	if len(o.SRead) > 0 || len(o.CRead) > 0 {
+		c.Violate("application-data-after-unoffered-choice dev="+dev+" resumed12", "%s", c.R.Class)
+	}
+}
+
 func runC12(c *Ctx) {
 	if c.Run%16 == 5 {
 		runC12PSK(c)
+		return
+	}
+	if c.Run%16 == 13 {
+		runC12Resumed12(c)
 		return
 	}
 	ch := c.Ch
